@@ -109,6 +109,11 @@ Theorem C03_prediction_sound : forall e stages d, predict_prio stages = Some d -
 Proof. exact predict_prio_ok. Qed.
 Print Assumptions C03_prediction_sound.
 
+Theorem C03_document_prediction_sound : forall e c ys d, predict_docs ys = Some d ->
+  exists n, flatten e (map (load_doc c) ys) = Ok n /\ perase n = d.
+Proof. exact predict_docs_ok. Qed.
+Print Assumptions C03_document_prediction_sound.
+
 (* path by path, on the specification alone: the fold of upd_p holds at q the fold of what the stages hold at q *)
 Theorem C03_update_is_pointwise : forall ds d0 q, q <> [] -> sp d0 q -> Forall (fun d => sp d q /\ pwf d) ds ->
   pget (fold_left upd_p ds d0) q = fold_left wr (map (fun d => pget d q) ds) (pget d0 q).
